@@ -61,7 +61,14 @@ class GeometricMTF(SpotDiagram):
             wavelength = optic.primary_wavelength
         if max_freq == 'cutoff':
             # wavelength must be converted to mm for frequency units cycles/mm
-            self.max_freq = 1 / (wavelength * 1e-3 * optic.paraxial.FNO())
+            FNO = optic.paraxial.FNO()
+            if not optic.object_surface.is_infinite:
+                # finite conjugate: working F-number 1 / (2 n' |u'|), as for
+                # the FFT-based MTF
+                _, ua = optic.paraxial.marginal_ray()
+                n_image = optic.n()[-2]
+                FNO = float(np.ravel(1 / (2 * np.abs(n_image * ua[-2])))[0])
+            self.max_freq = 1 / (wavelength * 1e-3 * FNO)
 
         super().__init__(optic, fields, [wavelength], num_rays, distribution)
 
